@@ -36,7 +36,7 @@ import (
 func init() { encoding.RegisterCodec(rawh2.RawCodec{}) }
 
 type c22Scen struct {
-	Point     string `json:"point"` // resolver | picker | quota | write | recv | recvmid | handler
+	Point     string `json:"point"` // resolver | picker | quota | write | recv | recvmid | backoff | handler
 	Kind      string `json:"kind"`  // unary | stream (bidi) | cstream (client streaming)
 	Tracing   bool   `json:"tracing"` // grpc.EnableTracing
 	Delay     string `json:"delay"` // none | pick | quota
@@ -109,6 +109,10 @@ func c22Timeout(v string) int64 {
 	}
 	return n * u
 }
+
+// retry policy for the "backoff" blocking point: the backoff (30 s x jitter 0.8..1.2) outlasts every event instant
+const c22RetryConfig = `{"methodConfig":[{"name":[{"service":"c22"}],"retryPolicy":{"maxAttempts":4,"initialBackoff":"30s",
+"maxBackoff":"30s","backoffMultiplier":1.0,"retryableStatusCodes":["UNAVAILABLE"]}}]}`
 
 func c22Run(t *testing.T, rec *c22Rec, sc c22Scen) {
 	synctest.Test(t, func(t *testing.T) {
@@ -196,6 +200,11 @@ func c22Run(t *testing.T, rec *c22Rec, sc c22Scen) {
 							}
 							rec.emit("srv", "has", v != "", "v", ns, "raw", v, "handler", false)
 						}
+						if sc.Point == "backoff" {
+							// trailers-only UNAVAILABLE: the client schedules a retry and sleeps in the backoff (>= 24 s)
+							p.WriteHeaders(f.StreamID, true, ":status", "200", "content-type", "application/grpc",
+								"grpc-status", "14", "grpc-message", "try again later")
+						}
 						if sc.Point == "recvmid" {
 							// response HEADERS, the 5-byte message prefix announcing 100 bytes, 10 bytes of payload; then stall
 							p.WriteHeaders(f.StreamID, false, ":status", "200", "content-type", "application/grpc")
@@ -214,7 +223,11 @@ func c22Run(t *testing.T, rec *c22Rec, sc c22Scen) {
 		if sc.Point != "resolver" {
 			rb.InitialState(resolver.State{Addresses: []resolver.Address{{Addr: "c22"}}})
 		}
-		cc, err := grpc.NewClient("c22:///x", grpc.WithTransportCredentials(insecure.NewCredentials()), grpc.WithResolvers(rb),
+		extra := []grpc.DialOption{}
+		if sc.Point == "backoff" {
+			extra = append(extra, grpc.WithDefaultServiceConfig(c22RetryConfig))
+		}
+		cc, err := grpc.NewClient("c22:///x", append(extra, grpc.WithTransportCredentials(insecure.NewCredentials()), grpc.WithResolvers(rb),
 			grpc.WithContextDialer(func(ctx context.Context, _ string) (net.Conn, error) {
 				select {
 				case <-relDial:
@@ -223,7 +236,7 @@ func c22Run(t *testing.T, rec *c22Rec, sc c22Scen) {
 					return nil, ctx.Err()
 				}
 			}),
-			grpc.WithDefaultCallOptions(grpc.ForceCodec(rawh2.RawCodec{})))
+			grpc.WithDefaultCallOptions(grpc.ForceCodec(rawh2.RawCodec{})))...)
 		if err != nil {
 			panic(err)
 		}
